@@ -100,6 +100,7 @@ class C04(core.Prop):
         t = ['op', {'train': ['t3', 0, True]}]
         seq = lambda *xs: xs[0] if len(xs) == 1 else ['seq', xs[0], seq(*xs[1:])]
         return [
+            {'t': 'pinned', 'gens': 2, 'width': 3, 'implicit': True, 'commit_before': 1},
             {'expr': seq(lab, a, b, probe), 'history': [['train'], ['perftrack', 0], ['apply', 0]]},
             {'expr': seq(a, t, b, probe), 'history': [['train'], ['train'], ['perftrack', 1], ['apply', 0]]},
             {'expr': seq(['op', {'apply': ['m0', 0, False], 'train': 'same'}], a, b, probe), 'history': [['train'], ['perftrack', 0]]},
@@ -130,6 +131,12 @@ class C04(core.Prop):
                     history.append(['apply', rng.randrange(gens)])
                 else:
                     history.append(['perftrack', rng.randrange(gens)])
+            if len(out) % 8 == 7:
+                # real asset levels: a generation addressed implicitly (latest) must stay the same generation for every state
+                # load of the action, also when another training commits in between
+                out.append({'t': 'pinned', 'gens': rng.randint(1, 3), 'width': rng.randint(2, 4), 'implicit': rng.random() < 0.8,
+                            'commit_before': rng.randint(1, 3)})
+                continue
             case = {'expr': expr, 'history': history}
             if len(out) % 6 == 5:
                 case['shift'] = {str(k): 10 * k for k in range(1, len(history))}
@@ -143,6 +150,8 @@ class C04(core.Prop):
             return list(pool.map(impl.observe, cases))
 
     def coq_case(self, case, obs):
+        if case.get('t') == 'pinned':
+            return None
         if case.get('shift'):
             return None        # code-change histories are judged by the oracle only (the model fixes the hyper-parameters)
         if 'error' in obs:
@@ -162,6 +171,14 @@ class C04(core.Prop):
                 f"{cl(actions, 'action')} {gens} {cl(applied, 'term')})")
 
     def oracle(self, case, obs):
+        if case.get('t') == 'pinned':
+            if 'error' in obs:
+                return f"loading failed: {obs['error']}"
+            want = [[case['gens'], i] for i in range(case['width'])]
+            if obs['loads'] != want:
+                return (f"states loaded by one action came from generations/positions {obs['loads']}, expected {want} (the generation "
+                        f"that was latest when the action started, each actor its own position)")
+            return None
         if 'error' in obs:
             return f"lifecycle failed: {obs['error']}"
         want, registry = py_lifecycle(case['expr'], case['history'], case.get('shift'))
@@ -199,6 +216,8 @@ class C04(core.Prop):
         return json.loads(json.dumps([['app', 'metric', 0, None, [y0, x]]]))
 
     def signature(self, case, obs, problem):
+        if case.get('t') == 'pinned':
+            return None
         if ' perftrack of generation' in problem:
             want, registry = py_lifecycle(case['expr'], case['history'], case.get('shift'))
             for k, (action, got, exp) in enumerate(zip(case['history'], obs['steps'], want)):
@@ -211,18 +230,25 @@ class C04(core.Prop):
         return None
 
     def nontrivial(self, case, obs):
+        if case.get('t') == 'pinned':
+            return True
         ops = c03mod.flatten(case['expr'])
         return sum(1 for o in ops if o.get('apply') and o['apply'][2]) >= 2 and len(case['history']) >= 3
 
     def shrink(self, case):
         out = []
+        if case.get('t') == 'pinned':
+            return out
         if len(case['history']) > 2:
             out.append({**case, 'history': case['history'][:-1]})
         return out
 
     def distribution(self, cases, observations):
         dist = {'actions': {}, 'history_lengths': {}, 'persistent_actors': {}}
+        dist['pinned_generation_cases'] = sum(c.get('t') == 'pinned' for c in cases)
         for c in cases:
+            if c.get('t') == 'pinned':
+                continue
             for a in c['history']:
                 dist['actions'][a[0]] = dist['actions'].get(a[0], 0) + 1
             k = str(len(c['history']))
